@@ -241,6 +241,38 @@ def conc_stream(which, klass=0, scen_fn=None, tag="c"):
     return run
 
 
+def stress_stream(which):
+    """Uncontrolled multi-thread runs (no hooks installed). Oracle failures only; a search aid, not a proof."""
+    def run(ctx):
+        name = f"stress:{which}"
+        res = {"name": name, "I": [], "M": [], "stats": {}, "samples": []}
+        if ctx.get("search"):
+            iters, threads = 2500, 16
+        elif ctx["tier"] == "thorough":
+            iters, threads = 4000, 12
+        else:
+            iters, threads = 120, 8
+        cmd = [os.path.join(BIN, "stress"), which.lower(), str(iters), str(threads), str(ctx["seed"])]
+        rc, out = sh(cmd, timeout=3600)
+        lines = out.splitlines()
+        for l in lines:
+            if l.startswith("ORACLE "):
+                t = l.split(" ", 3)
+                kind = t[2].rstrip(":") if len(t) > 2 else "?"
+                res["I"].append({"stream": name, "fingerprint": f"stress_{kind}", "what": l[len("ORACLE "):],
+                                 "case": {"replay": " ".join(cmd), "note": "uncontrolled threads: the run is not deterministic; the line above is the observation"}})
+            elif l.startswith("stats "):
+                for kv in l.split()[2:]:
+                    k, _, v = kv.partition("=")
+                    res["stats"][k] = int(v) if v.isdigit() else v
+        if rc != 0:
+            res["I"].append({"stream": name, "fingerprint": "stress_crash", "what": f"{which} stress run crashed (rc={rc}): {out[-300:]!r}",
+                             "case": {"replay": " ".join(cmd)}})
+        return res
+    run.__name__ = f"stress_{which}"
+    return run
+
+
 import probes
 
 PROPS = {
@@ -369,12 +401,12 @@ ARENA_TRUST = ["atomics on a sequentially consistent interleaving at the granula
                "extractor's classification of atomic operations into roles (LassoModel/Source.lean AtomicRole)",
                "harness controller and hook placement (f33c273)"]
 PROPS["C05"] = {
-    "streams": [conc_stream("C05", klass=1, scen_fn=arena_scenarios, tag="a")],
+    "streams": [conc_stream("C05", klass=1, scen_fn=arena_scenarios, tag="a"), stress_stream("C05")],
     "trusted_base": ARENA_TRUST + ["C11 release/acquire semantics: the theorem checks the publication rule on the extracted ordering table; the memory model itself is not formalised (thorough tier runs Miri's race detector as a search aid)"],
     "assumptions": ["strings reach other threads only through the interner's maps (C03)"],
 }
 PROPS["C09"] = {
-    "streams": [conc_stream("C09", klass=1, scen_fn=arena_scenarios, tag="a")],
+    "streams": [conc_stream("C09", klass=1, scen_fn=arena_scenarios, tag="a"), stress_stream("C09")],
     "trusted_base": ARENA_TRUST,
     "assumptions": ["the limit is fixed during a run in the model; set_memory_limit racing with interning is exercised by the harness only"],
 }
